@@ -154,8 +154,67 @@ def r16_3(ctx):
     ctx.run_rule("R16.3", "raw()/buffered() agree with the span fields", body, floor=4)
 
 
+PROGRESS_FNS = ("read_byte", "read_raw_end_tag", "tag_attr")
+
+
+def always_progress(F, g, memo):
+    """every normal return of g has passed through read_byte() (directly or through a callee that always does)"""
+    if g.path in memo:
+        return memo[g.path]
+    memo[g.path] = False  # recursion guard
+    ok = True
+    n = 0
+    try:
+        for p in Sym(g, copies=True, max_paths=20000).paths():
+            if p.end[0] != "ret":
+                continue
+            n += 1
+            hit = False
+            for e in p.events:
+                if e[0] == "call" and e[6] is not None and e[6].local and e[6].adt == TOK:
+                    if e[6].name in PROGRESS_FNS:
+                        hit = True
+                    else:
+                        h = F.method(TOK, e[6].name, required=False)
+                        if h is not None and always_progress(F, h, memo):
+                            hit = True
+            if not hit:
+                ok = False
+    except Exception:
+        ok = False
+    memo[g.path] = ok and n > 0
+    return memo[g.path]
+
+
+def none_on_err(F, g):
+    """g returns None on every path on which it found `err` set, and never returns Some(..) straight after
+    a read whose outcome it did not look at"""
+    ERR = ("field", ("param", 1), "err", TOK)
+    try:
+        for p in Sym(g, copies=True, max_paths=20000).paths():
+            if p.end[0] != "ret":
+                continue
+            is_none = p.end[1][0] == "agg" and p.end[1][2] == "None"
+            err_set = any(a == ("call", "std::option::Option::is_some", (ERR,)) and v == 1 for a, v in p.conds)
+            if err_set and not is_none:
+                return False
+            if not is_none:
+                # after the last read: err found unset, or read_raw_end_tag() answered true (it answers false on err)
+                last = max([i for i, e in enumerate(p.events) if e[0] == "call" and e[6] is not None and e[6].local and e[6].adt == TOK and e[6].name in PROGRESS_FNS] or [-1])
+                if last >= 0:
+                    later = p.events[last + 1:]
+                    ok = any(e[0] == "cond" and e[1] == ("call", "std::option::Option::is_some", (ERR,)) and e[2] == 0 for e in later) \
+                        or (p.events[last][6].name == "read_raw_end_tag" and any(e[0] == "cond" and e[1] == p.events[last][3] and e[2] == 1 for e in later))
+                    if not ok:
+                        return False
+    except Exception:
+        return False
+    return True
+
+
 def r16_6(ctx):
     F = ctx.facts
+    memo_prog = {}
 
     def body(r):
         n = 0
@@ -182,12 +241,19 @@ def r16_6(ctx):
                         continue
                 # every cycle through h passes through a progress call
                 progress = set()
+                handlers = []
                 for bi in body_blocks:
                     t = f.blocks[bi]["term"]
                     if t["k"] == "call" and "f" in t:
                         cal = Callee(t["f"])
-                        if cal.local and cal.adt == TOK and cal.name in ("read_byte", "read_raw_end_tag", "tag_attr"):
+                        if cal.local and cal.adt == TOK and cal.name in PROGRESS_FNS:
                             progress.add(bi)
+                        elif cal.local and cal.adt == TOK:
+                            # a state handler that reads a byte on every path before it returns
+                            hnd = F.method(TOK, cal.name, required=False)
+                            if hnd is not None and always_progress(F, hnd, memo_prog):
+                                progress.add(bi)
+                                handlers.append(hnd)
                 cyc_without = False
                 # is there a cycle h -> ... -> h avoiding all progress blocks?
                 seen = set()
@@ -209,6 +275,11 @@ def r16_6(ctx):
                         return out is (atom[1].endswith("is_some"))
                     return False
                 exits_on_err = any(sb in body_blocks and tb not in body_blocks for tb, sb in tests.blocks_where(pred))
+                if not exits_on_err and handlers:
+                    # a state-machine loop: it is left when a handler answers None, and every handler answers
+                    # None once err is set
+                    leaves_on_none = any(sb in body_blocks and tb not in body_blocks for tb, sb in tests.disc_blocks(lambda pe: pe[0] == "call" or pe[0] in ("local", "phi"), "None"))
+                    exits_on_err = leaves_on_none and all(none_on_err(F, hnd) for hnd in handlers)
                 # or the loop condition itself is the has-more flag of tag_attr (token())
                 ok = (not cyc_without) and (exits_on_err or any(f.blocks[b]["term"]["k"] == "call" and "f" in f.blocks[b]["term"] and Callee(f.blocks[b]["term"]["f"]).name == "tag_attr" for b in progress))
                 r.ob("progress:%s:loop@%d" % (f.name, heads.index(h)), ok, f.site,
